@@ -87,7 +87,12 @@ func (e Expression) MarshalYAML() (interface{}, error) {
 		case FloatExpression:
 			return float64(e), nil
 		case StringExpression:
-			return string(e), nil
+			// A plain string is read back via ExpressionFromString, which
+			// infers the type of expression from the text, so only use the
+			// fast track for strings it gives back unchanged.
+			if back, ok := ExpressionFromString(string(e)).AnyExpression.(StringExpression); ok && back == e {
+				return string(e), nil
+			}
 		case Expressions:
 			return e.String(), nil
 		}
